@@ -97,6 +97,7 @@ pub fn lex(song: &mut Song, src: &str, lineno: isize) -> Vec<Token> {
             'p' => result.push(read_pitch_bend_small(&mut cur, song)), // @ pitch bend - ピッチベンドの指定 range:0-127 (center:64) (ex) p64 / (ref) PB(n) は -8192~0~8191
             'v' | 'q' if cur.eq("Add") || (ch == 'q' && cur.eq("2Add")) => { // vAdd / qAdd / q2Add are upper commands
                 cur.prev();
+                cur.replace_char(ch); // full-width letter: re-read it as the half-width one (otherwise the word is empty and lex() never advances)
                 result.push(read_upper_command(&mut cur, song));
             },
             'q' => result.push(read_qlen(&mut cur, song)), // @ gate rate - ゲートの指定 range:0-100 (ex) q90
